@@ -1,0 +1,37 @@
+//! Verification hooks (feature `verif-hooks`, default off, add-only).
+//!
+//! * Re-export of the inner-product argument entry points, which live in a private module.
+//! * A thread-local log of the scalar vector of the final multi-scalar multiplication of
+//!   `ipa_verify` (the `2k` squared challenges, the recursively built folding coefficients,
+//!   their `r` multiples, `1` and `r`), as canonical little-endian bytes in MSM order.
+//!
+//! Nothing here changes the behaviour of unguarded code.
+
+use std::cell::RefCell;
+
+use ff::PrimeField;
+
+pub use crate::inner_product_argument::{ipa_prove, ipa_verify};
+
+thread_local! {
+    static IPA_SCALARS: RefCell<Option<Vec<Vec<Vec<u8>>>>> = const { RefCell::new(None) };
+}
+
+/// Starts (or restarts) recording the verifier MSM scalars on this thread.
+pub fn ipa_log_start() {
+    IPA_SCALARS.with(|l| *l.borrow_mut() = Some(vec![]));
+}
+
+/// Stops recording and returns one scalar vector per `ipa_verify` call since the start.
+pub fn ipa_log_take() -> Vec<Vec<Vec<u8>>> {
+    IPA_SCALARS.with(|l| l.borrow_mut().take()).unwrap_or_default()
+}
+
+/// Called by `ipa_verify` with the scalars of its final MSM.
+pub(crate) fn ipa_log_msm_scalars<F: PrimeField>(scalars: &[F]) {
+    IPA_SCALARS.with(|l| {
+        if let Some(log) = l.borrow_mut().as_mut() {
+            log.push(scalars.iter().map(|s| s.to_repr().as_ref().to_vec()).collect());
+        }
+    });
+}
